@@ -229,6 +229,10 @@ class LinkState(Attribute):
         instance.ls_attrs
         return instance
 
+    def pack_attribute(self, negotiated: Negotiated) -> Buffer:
+        """The TLVs are kept as the wire bytes they were decoded from, so those are the value."""
+        return self._attribute(bytes(self._packed))
+
     def json(self, compact: bool = False) -> str:
         """Output JSON for all TLVs. MERGE classes are grouped into arrays by JSON key."""
         from collections import defaultdict
